@@ -169,6 +169,14 @@ def run(tier: str, rep: Report):
                 f = str(wd / f"big-{v}-{k}.ndjson")
                 files.append(f)
                 jobs[v].append(("encode.bigtables_to_file", {"cases": ch, "path": f}))
+            import itertools
+            fo = [{"id": f"f:{''.join(pm)}:{int(cell)}:{v}", "order": list(pm), "cell": cell}
+                  for pm in itertools.permutations(("a", "b", "c")) for cell in (False, True)]
+            fo += [{"id": f"f:tcs:{int(cell)}:{v}", "order": ["total", "count", "step"], "cell": cell} for cell in (False, True)]
+            k += 1
+            f = str(wd / f"freeorder-{v}-{k}.ndjson")
+            files.append(f)
+            jobs[v].append(("encode.freeorder_to_file", {"cases": fo, "path": f}))
             lp = lineprogs["a310" if v == "310" else "a39"]
             for ch in chunks(lp, 150):
                 k += 1
@@ -238,7 +246,7 @@ def run(tier: str, rep: Report):
     fails = df.validate(rep, files, "Trace_Encode")
 
     def keyfn(evid, clauses):
-        src = "graph" if evid.startswith("g:") else "overrides" if evid.startswith("o:") else "lineprog" if evid.startswith("l:") else "signature" if evid.startswith("s:") else "bigtable" if evid.startswith("b:") else ("normalized" if evid.endswith(":norm") else "decoded")
+        src = "graph" if evid.startswith("g:") else "overrides" if evid.startswith("o:") else "lineprog" if evid.startswith("l:") else "signature" if evid.startswith("s:") else "freeorder" if evid.startswith("f:") else "bigtable" if evid.startswith("b:") else ("normalized" if evid.endswith(":norm") else "decoded")
         return f"{PID}/{'+'.join(sorted(set(c.split('.', 1)[1] for c in clauses)))}/{src}/ver{df.ver_of(evid) if evid[:2] not in ('g:', 'o:', 'l:', 's:', 'b:') else evid.split(':')[-1]}"
 
     def corrupt(e):
